@@ -193,8 +193,8 @@ def signature(obs):
             # which capacity was exceeded?  The known defect is "5 + 2 * tokens is too small"; a node buffer that
             # overflows with any other capacity is a different failure and must not hide behind it.
             nc = [e for e in obs.get("ev") or [] if e.get("ev") == "nodecap"]
-            if nc and nc[0]["cap"] == 5 + 2 * nc[0]["toks"]:
-                key += " (capacity 5 + 2*tokens)"
+            if nc and nc[0]["toks"] > 0 and (nc[0]["cap"] - 5) % nc[0]["toks"] == 0 and nc[0]["cap"] >= 5:
+                key += " (capacity 5 + %d*tokens)" % ((nc[0]["cap"] - 5) // nc[0]["toks"])
             elif nc:
                 key += " (capacity %d for %d tokens)" % (nc[0]["cap"], nc[0]["toks"])
         return "delta-panic", key
